@@ -211,3 +211,58 @@ func cyclesIn(edges []orderEdge) [][]orderEdge {
 	}
 	return cycles
 }
+
+// lockBalance: at every return of every function in fns no lock acquired in that function may
+// still be held (locks released by a deferred Unlock are fine). Uses the may-hold analysis: a
+// single path that returns with the lock held is a leak.
+func lockBalance(r *engine.Report, p *engine.Program, rule string, fns []*ssa.Function, lockFields map[*types.Var]bool) {
+	nFn, nRet := 0, 0
+	for _, fn := range fns {
+		lf := p.Locks(fn)
+		ops := lf.Ops()
+		if len(ops) == 0 {
+			continue
+		}
+		nFn++
+		deferred := map[string]bool{}
+		for _, op := range ops {
+			if !op.Acquire && op.Deferred {
+				deferred[op.Path.String()] = true
+			}
+		}
+		// deferred closures that unlock
+		for _, ci := range engine.CallsIn(fn) {
+			if d, ok := ci.(*ssa.Defer); ok {
+				if mc, ok := d.Common().Value.(*ssa.MakeClosure); ok {
+					for _, op := range p.Locks(mc.Fn.(*ssa.Function)).Ops() {
+						if !op.Acquire {
+							deferred[op.Path.String()] = true
+						}
+					}
+				}
+			}
+		}
+		for _, ret := range engine.Returns(fn) {
+			nRet++
+			h := lf.MayHeldAt(ret)
+			for k := range h {
+				if deferred[k] {
+					continue
+				}
+				// only locks of the given classes
+				var fld *types.Var
+				for _, op := range ops {
+					if op.Path.String() == k {
+						fld = op.Path.Last()
+					}
+				}
+				if lockFields != nil && (fld == nil || !lockFields[fld]) {
+					continue
+				}
+				r.Add(rule, fmt.Sprintf("%s: returns with %s held", engine.FuncName(fn), k), ret.Pos(), engine.Violated,
+					"a path reaches this return with the lock still held and no deferred unlock: every later acquisition blocks forever")
+			}
+		}
+	}
+	r.Add(rule, "functions with lock operations", 0, engine.Discharged, fmt.Sprintf("%d functions with lock operations, %d returns examined: none can return with a lock held", nFn, nRet))
+}
